@@ -354,5 +354,26 @@ func main() {
 			}
 		}
 	}
-	hx.WriteOutput(map[string]any{"outs": outs})
+	hx.WriteOutput(map[string]any{"outs": outs, "facts": facts()})
+}
+
+// facts reads off the running code which variant of the value path the tree has: with the repair D-C17g the
+// ${} callback splices a float64 in plain digits ("1000000"), without it in %v's exponent form ("1e+06").
+func facts() map[string]any {
+	spec := TypeSpec{K: "string"}
+	part, ok := runChild([]Case{{ID: 0, Kind: "lit", Yaml: "k: 1000000.0\n", Key: "k",
+		Text: "${k}", Type: spec}}, 20*time.Second)
+	got := "?"
+	if ok && len(part) == 1 {
+		if m, isMap := part[0].Value.(map[string]any); isMap && m["o"] == "ok" {
+			if f, isF := m["f"].(map[string]any); isF {
+				if h, isS := f["S"].(string); isS {
+					if b, err := hex.DecodeString(h); err == nil {
+						got = string(b)
+					}
+				}
+			}
+		}
+	}
+	return map[string]any{"float_splice": got}
 }
